@@ -20,6 +20,7 @@ def run(prog, rep, tier):
         from zw import Broken
         raise Broken("fewer predicate registrations than confirmed by hand (1500)")
     apply(rep, "A4", "negation keeps fail", r_pred.a4(prog), 4)
+    apply(rep, "A4b", "three-valued and/or keep fail absorbing", r_pred.a4b(prog), 2)
     apply(rep, "A5", "sub-expressions are fed a copy", r_pred.a5(prog), 10)
     apply(rep, "A6", "let/infix/capture yield the outer stack, never the sub-expression's", r_pred.a6(prog), 2)
     maybe_mutants("C04", rep, tier)
